@@ -224,6 +224,25 @@ theorem C11_after_end_error (s : RS) (hdead : s.active = false) (idx : List Int)
     (reqStep s (.trig idx)).2 = 1 := by
   simp [reqStep, queued, hdead]
 
+/-! ### WriteControl START with a pixel map loaded: what each source kind answers -/
+
+/-- **C11_misfit_map_refused**: a START that reaches the map check with a map that does not fit the source (wrong number
+of pixels for `nchan / channelsPerPixel`, or a channel number without a pixel) is answered with an error — one reply,
+no crash — and leaves the map unloaded and everything else as it was. -/
+theorem C11_misfit_map_refused (s : RS) (npix path : Nat) (hf : s.flag = true) (ha : s.active = true)
+    (hw : s.writers = false) (hm : s.map = some npix) (hrej : vPix (s.nchan / s.cpp) s.nums npix = .reject) :
+    reqStep s (.write 0 path 1) = ({ s with map := none }, 1) := by
+  simp [reqStep, queued, wreqOf, hf, ha, hw, hm, hrej]
+
+/-- the answers by source kind: pixels = channels for ROACH / Abaco / simulated sources, channels / 2 for Lancero; ROACH
+and the simulated sources number their channels from 0, so no map fits them; after a refusal the map is gone and the
+next START goes through -/
+example : (runReqs (RS.initSrc "roach" 4 0) [.loadMap 4, .write 0 0 1, .write 0 0 1]).2 = [0, 1, 0] := by decide
+example : (runReqs (RS.initSrc "abaco" 4 1) [.loadMap 4, .write 0 0 1, .write 1 0 1, .loadMap 5, .write 0 0 1]).2 = [0, 0, 0, 0, 1] := by decide
+example : (runReqs (RS.initSrc "lancero" 8 1) [.loadMap 4, .write 0 0 1]).2 = [0, 0] := by decide
+example : (runReqs (RS.initSrc "lancero" 8 1) [.loadMap 8, .write 0 0 1, .write 0 0 1]).2 = [0, 1, 0] := by decide
+example : (runReqs (RS.initSrc "tri" 2 0) [.loadMap 2, .write 0 0 1]).2 = [0, 1] := by decide
+
 /-! ### Every caller receives the result of ITS OWN closure -/
 
 /-- invariant of the hand-over: the only caller blocked on `queuedResults` is the one whose closure is running -/
